@@ -85,6 +85,8 @@ func concreteKey(v value, sb *strings.Builder) bool {
 		sb.WriteString("]")
 	case *ssa.Function:
 		fmt.Fprintf(sb, "f%p;", v)
+	case rtypeVal:
+		fmt.Fprintf(sb, "T%s;", types.TypeString(v.t, nil))
 	default:
 		return false
 	}
